@@ -445,6 +445,18 @@ func checkOrderingParity(c *Ctx, rule string) {
 						}
 					}
 				}
+				// membership of env.State in an allowed set (slices.Contains(set, env.State))
+				if call, ok := a.X.(*ssa.Call); ok && len(call.Call.Args) == 2 {
+					g := call.Call.StaticCallee()
+					if g != nil && g.Origin() != nil {
+						g = g.Origin()
+					}
+					if g != nil && g.Pkg != nil && g.Pkg.Pkg.Path() == "slices" && g.Name() == "Contains" {
+						if _, f, ok := fieldOfLoad(call.Call.Args[1]); ok && f == "State" {
+							memCols["state"] = true
+						}
+					}
+				}
 				// membership of env.State in an allowed set
 				if ex, ok := a.X.(*ssa.Extract); ok {
 					if lk, ok := ex.Tuple.(*ssa.Lookup); ok {
